@@ -974,7 +974,30 @@ class RouteMon(Monitor):
                 if g[10]:
                     raise Violation('blocked_input', f'part {pid} entered {rname} whose input is blocked')
                 # edge check against the specification graph
-                if isinstance(rdev, GroupInput):
+                if isinstance(prev_dev, GroupOutput):
+                    # the part leaves the group of prev_dev: through the innermost path it entered by
+                    gname = prev_dev._group.name
+                    st = self.stack.get(pid, [])
+                    if not st:
+                        raise Violation('group_exit', f'part {pid} leaves group {gname} without having entered it')
+                    entry = st[-1]
+                    if self.path_group.get(entry) != gname:
+                        raise Violation('group_exit', f'part {pid} leaves group {gname} but its innermost entered '
+                                                      f'path is {entry} of group {self.path_group.get(entry)}')
+                    for i in ids:
+                        if i in self.stack:
+                            self.stack[i].pop()
+                    w.facts.append('group_exit')
+                    if isinstance(rdev, GroupOutput):
+                        # nested groups: the inner path is the last device of the enclosing group
+                        if entry != self.members[rdev._group.name][-1]:
+                            raise Violation('group_exit', f'part {pid} left group {gname} through {entry} into the output of group '
+                                                          f'{rdev._group.name}, whose last device is {self.members[rdev._group.name][-1]}')
+                        w.facts.append('nested_group_exit')
+                    elif rname not in self.downstream_of(entry):
+                        raise Violation('group_exit', f'part {pid} entered group {gname} through {entry} but left '
+                                                      f'towards {rname}, which is not downstream of {entry}')
+                elif isinstance(rdev, GroupInput):
                     if self.kinds.get(prev) != 'path' or self.path_group[prev] != rdev._group.name:
                         raise Violation('edge', f'{prev} -> input of group {rdev._group.name} is not configured')
                 elif isinstance(rdev, GroupOutput):
@@ -985,22 +1008,6 @@ class RouteMon(Monitor):
                     gname = prev_dev._group.name
                     if rname != self.members[gname][0]:
                         raise Violation('edge', f'input of group {gname} -> {rname}: not the first device of the group')
-                elif isinstance(prev_dev, GroupOutput):
-                    gname = prev_dev._group.name
-                    st = self.stack.get(pid, [])
-                    if not st:
-                        raise Violation('group_exit', f'part {pid} leaves group {gname} without having entered it')
-                    entry = st[-1]
-                    if self.path_group.get(entry) != gname:
-                        raise Violation('group_exit', f'part {pid} leaves group {gname} but its innermost entered '
-                                                      f'path is {entry} of group {self.path_group.get(entry)}')
-                    if rname not in self.downstream_of(entry):
-                        raise Violation('group_exit', f'part {pid} entered group {gname} through {entry} but left '
-                                                      f'towards {rname}, which is not downstream of {entry}')
-                    for i in ids:
-                        if i in self.stack:
-                            self.stack[i].pop()
-                    w.facts.append('group_exit')
                 else:
                     if prev not in self.up.get(rname, []):
                         raise Violation('edge', f'part {pid} moved {prev} -> {rname}: not a configured connection')
